@@ -668,3 +668,21 @@ mod sm9_key_test {
         }
     }
 }
+
+#[cfg(gm_rs_verif)]
+pub mod verif_key_hooks {
+    //! verification builds only: the private hash-to-range, KDF and MAC helpers
+    use crate::u256::U256;
+    pub fn hash1(id: &[u8], hid: u8) -> U256 {
+        super::sm9_u256_hash1(id, hid)
+    }
+    pub fn hash2(data: &[u8], wbuf: &[u8]) -> U256 {
+        super::sm9_u256_hash2(data, wbuf)
+    }
+    pub fn kdf(z: &[u8], klen: usize) -> Vec<u8> {
+        super::kdf(z, klen)
+    }
+    pub fn mac(k2: &[u8], z: &[u8]) -> Vec<u8> {
+        super::sm9_mac(k2, z)
+    }
+}
